@@ -38,6 +38,8 @@ type FnExec struct {
 	implQueries map[int]types.Type
 	boundAsserts map[string]bool
 	topAllowed   map[string]*frameAllow
+	funcByConst  map[Term]*ssa.Function
+	fnCodes      map[string]int
 }
 
 type frame struct {
@@ -292,9 +294,31 @@ func (st *State) val(v ssa.Value) Term {
 
 func (fx *FnExec) funcConst(f *ssa.Function) Term {
 	n := "fn." + sanitize(f.String())
-	fx.declare(n, fmt.Sprintf("(declare-const %s Int)", n))
-	fx.axiom("(< " + n + " 0)")
+	if !fx.declared[n] {
+		fx.declare(n, fmt.Sprintf("(declare-const %s Int)", n))
+		fx.axiom("(< " + n + " 0)")
+		fx.declare("closcode", "(declare-fun closcode (Int) Int)")
+		fx.axiom(fmt.Sprintf("(= (closcode %s) %d)", n, fx.fnCode(f)))
+		if fx.funcByConst == nil {
+			fx.funcByConst = map[Term]*ssa.Function{}
+		}
+		fx.funcByConst[n] = f
+	}
 	return n
+}
+
+// fnCode: a stable small integer identifying a function's code.
+func (fx *FnExec) fnCode(f *ssa.Function) int {
+	k := fnKey(f)
+	if fx.fnCodes == nil {
+		fx.fnCodes = map[string]int{}
+	}
+	if c, ok := fx.fnCodes[k]; ok {
+		return c
+	}
+	c := len(fx.fnCodes) + 1
+	fx.fnCodes[k] = c
+	return c
 }
 
 // lvalue of a pointer-typed SSA value
@@ -556,6 +580,8 @@ func (fx *FnExec) step(st *State, fr *frame, ins ssa.Instruction) bool {
 		}
 		st.clos[r] = ci
 		st.vals[x] = r
+		fx.declare("closcode", "(declare-fun closcode (Int) Int)")
+		st.assume(fmt.Sprintf("(= (closcode %s) %d)", r, fx.fnCode(ci.fn)))
 		fx.closureCaptures(st, fr, x, ci)
 	case *ssa.Slice:
 		fx.doSlice(st, fr, x)
